@@ -13,6 +13,7 @@ type codecSpec struct {
 	perJob    int
 	opts      []OptSet
 	filter    func(p *corpus.Pkg) bool
+	profile   string
 }
 
 func tierOf(ctx *Ctx) corpus.Tier {
@@ -24,7 +25,11 @@ func tierOf(ctx *Ctx) corpus.Tier {
 
 func prepareCodec(ctx *Ctx, spec codecSpec) (*Prepared, error) {
 	tier := tierOf(ctx)
-	pkgs := corpus.Shapes(ctx.Tier)
+	prof := spec.profile
+	if prof == "" {
+		prof = "full"
+	}
+	pkgs := corpus.ShapesProfile(ctx.Tier, prof)
 	if spec.filter != nil {
 		var f []*corpus.Pkg
 		for _, p := range pkgs {
@@ -94,17 +99,17 @@ func PrepareC03(ctx *Ctx) (*Prepared, error) {
 }
 
 func PrepareC05(ctx *Ctx) (*Prepared, error) {
-	return prepareCodec(ctx, codecSpec{harnesses: []string{"VH_C05"}})
+	return prepareCodec(ctx, codecSpec{profile: "lite", harnesses: []string{"VH_C05"}})
 }
 
 func PrepareC06(ctx *Ctx) (*Prepared, error) {
-	return prepareCodec(ctx, codecSpec{harnesses: []string{"VH_C06"}})
+	return prepareCodec(ctx, codecSpec{profile: "lite", harnesses: []string{"VH_C06"}})
 }
 
 func PrepareC07(ctx *Ctx) (*Prepared, error) {
-	return prepareCodec(ctx, codecSpec{harnesses: []string{"VH_C07", "VH_C07W"}})
+	return prepareCodec(ctx, codecSpec{profile: "lite", harnesses: []string{"VH_C07", "VH_C07W"}})
 }
 
 func PrepareC08(ctx *Ctx) (*Prepared, error) {
-	return prepareCodec(ctx, codecSpec{harnesses: []string{"VH_C08W", "VH_C08R"}})
+	return prepareCodec(ctx, codecSpec{profile: "lite", harnesses: []string{"VH_C08W", "VH_C08R"}})
 }
